@@ -13,7 +13,7 @@ One case per line: a whitespace separated list of ops, each op one token with `:
   task:<coro>                 create_task(coro)                                             (+1 handle)
   rpc:<call>                  Process._schedule_rpc(callback)                               (+1 handle)
   comm:<coro>                 LoopCommunicator(LocalCommunicator).rpc_send to a subscriber  (+1 handle: the reply future)
-  act:<call>                  CancellableAction(fn)                                         (+1 handle)
+  act:[k]<call>               CancellableAction(fn); `k`: fn cancels its own action while running (+1 handle)
   run:h                       action.run()
   drain                       run the event loop until nothing is ready
   coro := r<n> | f<h> | x<n> | c | a<h>.<coro> | w<h> | W<h>       call := r<n> | f<h> | x<n> | b<n>
@@ -118,7 +118,9 @@ def op (d : D) (tok : String) : Option (D × String) :=
   | ["task", c] => do some (push d (createTask d.s (← pCoro d c)), "ok")
   | ["rpc", c] => do some (push d (scheduleRpc d.s (← pCall d c)), "ok")
   | ["comm", c] => do some (push d (comm d.s (← pCoro d c)), "ok")
-  | ["act", c] => do some (push d (newAction d.s (← pCall d c)), "ok")
+  | ["act", c] =>
+      if c.startsWith "k" then do some (push d (newAction d.s { cancels := true, out := ← pCall d (c.drop 1).toString }), "ok")
+      else do some (push d (newAction d.s { out := ← pCall d c }), "ok")
   | ["run", h] => do
       let a ← handle? d h
       if (d.s.acts a).isNone then none else
